@@ -1,5 +1,6 @@
 //! Scenario driver for the wallet simulation: C01 (ledger), C06 (trees), C15 (queue).
 
+use crate::simchain::POOLS;
 use zcash_client_backend::data_api::scanning::ScanPriority;
 use serde_json::json;
 
@@ -61,6 +62,14 @@ impl WalletScenario {
     }
 
     fn after_op(&self, s: &mut WalletSim, ch: &mut Choices, ctx: &mut RunCtx, full: bool) -> SimResult {
+        if std::env::var_os("ZSIM_DEBUG").is_some() {
+            for t in ["sapling", "orchard", "ironwood"] {
+                let rh: Vec<(i64, Option<u32>, Option<Vec<u8>>)> = s.conn.prepare(&format!("SELECT shard_index, subtree_end_height, root_hash FROM {t}_tree_shards ORDER BY 1")).unwrap().query_map([], |r| Ok((r.get(0)?, r.get(1)?, r.get(2)?))).unwrap().map(|x| x.unwrap()).collect();
+                if rh.iter().any(|x| x.2.is_some()) {
+                    eprintln!("  [{}] {t} shard roots: {:?}", ctx.seq, rh.iter().map(|(i, h, r)| (*i, *h, r.as_ref().map(|x| hex::encode(&x[..4])))).collect::<Vec<_>>());
+                }
+            }
+        }
         // every cheap oracle after every operation; only the owning property reports
         let t = std::time::Instant::now();
         s.check_ledger(ctx, self.owns("ledger"))?;
@@ -116,7 +125,7 @@ impl Scenario for WalletScenario {
             ch.open("op");
             let tip = s.chain.tip();
             let base = s.cfg.base_height;
-            let k = ch.weighted("op", &[26, 16, 18, 10, 8, 5, 7, if faults_on { 10 } else { 0 }, 6, 4, if self.prop == "C01" { 8 } else { 2 }]);
+            let k = ch.weighted("op", &[26, 16, 18, 10, 8, 5, 7, if faults_on { 10 } else { 0 }, 6, 4, if self.prop == "C01" { 8 } else { 2 }, if self.prop == "C06" { 8 } else { 4 }]);
             match k {
                 // honest client step
                 0 => {
@@ -154,6 +163,7 @@ impl Scenario for WalletScenario {
                 2 => {
                     if s.dirty_fork.is_none() && tip > base {
                         ctx.op("scan_arbitrary");
+                        s.refresh_roots_if_stale(ctx).or_else(|v| ctx.report(v))?;
                         let Some((from, limit)) = self.pick_range(&mut s, ch, 40) else {
                             ch.close();
                             continue;
@@ -312,6 +322,26 @@ impl Scenario for WalletScenario {
                                 ctx.event(format!("transparent coin reported ({} coins known; last {}@{})", s.t_coins.len(), c.value, c.height));
                             }
                             Err(e) => ctx.event(format!("put_received_transparent_utxo refused: {e}")),
+                        }
+                    }
+                }
+                // the client passes on the subtree roots its server reports (true roots of the current chain)
+                11 => {
+                    if s.dirty_fork.is_none() && tip > base {
+                        ctx.op("put_subtree_roots");
+                        let upto = s.tip_told.unwrap_or(tip).min(tip);
+                        for pool in POOLS {
+                            if !s.chain.pool_active(pool, upto) {
+                                continue;
+                            }
+                            match s.put_subtree_roots(pool, upto, ctx)? {
+                                Ok(0) => {}
+                                Ok(n) => ctx.event(format!("{} subtree roots inserted for {}", n, pool.name())),
+                                Err(e) => {
+                                    ch.close();
+                                    return ctx.report(Violation::new("true_subtree_roots_accepted", format!("put_{}_subtree_roots with the chain's own roots failed: {e}", pool.name())));
+                                }
+                            }
                         }
                     }
                 }
